@@ -75,6 +75,30 @@ func runC13(c *Ctx) {
 // escapeFn: the scanner method that decodes one escape: a method returning
 // string with a rune switch containing the constants of the escape table.
 func (c *Ctx) escapeFn() *ssa.Function {
+	// primary: the string-returning scanner method the string scanner calls inside its loop and whose
+	// result it appends (independent of how the escape table is written: switch, map, if-chain)
+	if sf, _, _, _ := c.stringScanner(); sf != nil {
+		var hit *ssa.Function
+		instrs(sf, func(b *ssa.BasicBlock, i int, in ssa.Instruction) {
+			call, ok := in.(*ssa.Call)
+			if !ok {
+				return
+			}
+			cal := calleeOf(call)
+			if cal == nil || !c.inModule(cal) || c.scannerDiagFns()[cal] || typeName(recvType(cal)) != "Scanner" || cal.Signature.Results().Len() != 1 {
+				return
+			}
+			if bt, ok := cal.Signature.Results().At(0).Type().Underlying().(*types.Basic); !ok || bt.Kind() != types.String {
+				return
+			}
+			if ch, _ := decodedRune(cal); ch != nil {
+				hit = cal
+			}
+		})
+		if hit != nil {
+			return hit
+		}
+	}
 	var best *ssa.Function
 	bestN := 0
 	for _, f := range c.P.ModFuncs {
